@@ -39,6 +39,13 @@ pub fn recent_millis() -> u64 {
     RECENT.load(Ordering::Relaxed)
 }
 
+/// Verification hook: move the coarse clock to `ms` (a virtual clock ahead of real time stays in
+/// control, because `now_millis` keeps the maximum).
+#[cfg(prometheus_verif)]
+pub fn verif_set_recent(ms: u64) {
+    RECENT.store(ms, Ordering::Relaxed);
+}
+
 lazy_static! {
     static ref UPDATER_IS_RUNNING: AtomicBool = AtomicBool::new(false);
 }
